@@ -168,6 +168,13 @@ def layout_handler_newline_optional_pretty(
         yield StreamFragment(dispatcher.newline_str, 0, 0, None, None)
 
 
+def is_space_required(before, after):
+    # also, a '.' directly after a decimal integer literal would be read
+    # as its decimal point (1 .toString() is not 1.toString()).
+    return bool(required_space.match(before[-1:] + after[:1])) or (
+        after[:1] == '.' and before.isdigit())
+
+
 def layout_handler_space_optional_pretty(
         dispatcher, node, before, after, prev):
     if isinstance(node, (If, For, ForIn, While)):
@@ -178,9 +185,8 @@ def layout_handler_space_optional_pretty(
     if before is None or after is None:
         # nothing.
         return
-    s = before[-1:] + after[:1]
 
-    if required_space.match(s) or after in assignment_tokens:
+    if is_space_required(before, after) or after in assignment_tokens:
         yield space_imply
         return
 
@@ -189,8 +195,7 @@ def layout_handler_space_minimum(dispatcher, node, before, after, prev):
     if before is None or after is None:
         # nothing.
         return
-    s = before[-1:] + after[:1]
-    if required_space.match(s):
+    if is_space_required(before, after):
         yield space_imply
 
 
